@@ -231,6 +231,23 @@ class C02:
 
     def _check_resume(self, cfg, spec, path, prefix, n, where, is_gz, t_full, ids, full_log_text, seed, simulated, add, out, depth):
         kind = "gz" if is_gz else "plain"
+        # double fault: an earlier resume was itself killed while it rewrote the log without its partial tail, leaving
+        # a stale '<file>.partial' that holds an arbitrary byte-prefix of what that repair would have written
+        torn = not (where.startswith("record_boundary") or where.startswith("after_version") or where.startswith("empty"))
+        if torn and depth == 0 and n % 3 == 0:
+            try:
+                done0 = complete_records(prefix, is_gz)
+            except Exception:
+                done0 = []
+            text = "".join(json.dumps(r, separators=(",", ":")) + "\n" for r in done0).encode()
+            blob = gzip.compress(text) if is_gz else text
+            if blob:
+                import random
+                cutp = random.Random(n * 7919 + cfg["offset_seed"]).randrange(0, len(blob) + 1)
+                with open(path + ".partial", "wb") as f:
+                    f.write(blob[:cutp])
+                out["counters"]["fault.crash_during_repair_stale_partial"] = out["counters"].get("fault.crash_during_repair_stale_partial", 0) + 1
+                where = where + "+stale_partial"
         tabs, exc, calls, log, exp = self.resume(spec, path, cfg.get("resume_config", cfg["config"]), seed ^ (n * 2654435761 & 0xFFFFFFFF), cfg["knobs"], simulated)
         out["counters"]["resumes"] = out["counters"].get("resumes", 0) + 1
         out["counters"][f"fault.crash_{where}"] = out["counters"].get(f"fault.crash_{where}", 0) + 1
@@ -266,6 +283,8 @@ class C02:
                         add(vio("restored_triple_evaluated_again", f"{kind} log cut at byte {n} ({where}): triple {tid} is recorded in the file "
                                                                    f"but was evaluated again", key=f"{kind}:{where}:restored_triple_evaluated_again"))
                     break
+        if os.path.exists(path + ".partial"):
+            os.remove(path + ".partial")
         # the file after resumption
         try:
             recs = file_records(path)
